@@ -61,8 +61,17 @@ impl Hunk {
 //@end
 }
 
+/// `PatchedFile::is_removed_file` as a predicate (its body is verified against this below)
+pub open spec fn removed_file(f: PatchedFile) -> bool {
+    f.spec_hunks().len() == 1 && f.spec_hunks()[0].target_start == 0 && f.spec_hunks()[0].target_length == 0
+}
+
 impl PatchedFile {
     pub closed spec fn spec_hunks(&self) -> Seq<Hunk> { self.hunks@ }
+//@unit id=X.is_removed_file file=registry:unidiff-0.4.0/src/lib.rs fn=<<impl PatchedFile::is_removed_file>> ret=r
+//@contract
+        ensures r == removed_file(*self),
+//@end
 //@unit id=X.hunks file=registry:unidiff-0.4.0/src/lib.rs fn=<<impl PatchedFile::hunks>> ret=r
 //@contract
         ensures r@ == self.spec_hunks(),
